@@ -182,7 +182,9 @@ fn mutate_text(rng: &mut Rng, valid: &[u8], sep: &[u8]) -> Vec<u8> {
 
 fn gen_kv_input(rng: &mut Rng, sep: &[u8]) -> (Vec<u8>, &'static str) {
     let keys = ["x", "x", "x", "alpha", "beta", "gamma", "list", "y", "title", "zzz"];
-    let vals: [&[u8]; 18] = [b"1", b"true", b"false", b"-5", b"255", b"256", b"1.5", b"a", b"%E7%8B%BC", b"hello%20world", b"", b"a,b,c", b"1,2", b"Red", b"dark%20blue", b"U", b"N", b"18446744073709551616"];
+    // values include the delimiters of each format's value grammar: quotes (cookie values may be double-quoted), lone and doubled
+    let vals: [&[u8]; 27] = [b"1", b"true", b"false", b"-5", b"255", b"256", b"1.5", b"a", b"%E7%8B%BC", b"hello%20world", b"", b"a,b,c", b"1,2", b"Red", b"dark%20blue", b"U", b"N", b"18446744073709551616",
+        b"\"", b"\"\"", b"\"a", b"a\"", b"\"a\"", b"\"\"\"", b"%", b"%4", b"+"];
     match rng.below(10) {
         0 => ({ let n = rng.below(60); rng.bytes(n) }, "random-bytes"),
         1 | 2 | 3 | 4 => {
